@@ -201,7 +201,8 @@ var siteNames = []string{"?", "attemptAcquire", "attemptPriorityTakeover", "hear
 	"checkKeyAndReelect", "verifyLeadershipAfterReconnect", "StopWithContext", "watchLoop", "Start",
 	"attemptAcquireWithRetry", "handleWatchEvent", "validationLoop", "ValidateToken", "ValidateTokenOrDemote",
 	"Stop", "becomeLeader", "becomeFollower", "handleReconnect", "handleGracePeriodExpired", "handleDisconnect",
-	"handleHeartbeatFailure", "handleHealthCheckFailure", "handleValidationFailure", "handleReconnectVerificationFailed"}
+	"handleHeartbeatFailure", "handleHealthCheckFailure", "handleValidationFailure", "handleReconnectVerificationFailed",
+	"recordHeldByOther"}
 
 func siteCode(fn string) int64 {
 	for i, n := range siteNames {
